@@ -50,7 +50,7 @@ CLAIMED.update({
  "C09": ("Coq theorems: (i) every successful process_into_buffer of the four asynchronous types returns a state whose buffers have the same shape as before (no buffer of the instance grows or shrinks, so none needs the heap), and (ii) the list of allocation-capable constructs (vec!, Vec::new/with_capacity, collect, clone, to_vec, push, resize, extend, Box/Arc::new, format!, realfft process without scratch ...) found inside process_into_buffer, the setters, reset, the getters and their in-crate callees, regenerated from /repo/src on every run with the log macros removed, is empty. Every such call of every sampled history on all seven types x {f32,f64} is bracketed by a counting global allocator and must show 0 events.",
          TB + "What is outside the crate (rustfft/realfft with scratch, core) is measured by the allocator, not proved; the construct list is syntactic. Axiom-free.",
          "machine-checked proof in Coq (shape invariant; emptiness of a regenerated summary) + counting-allocator measurements on model-validated histories", "DESIGN.md 7 C09"),
- "C17": ("Coq theorems generic in the sample type: for the four asynchronous types the control results of process_into_buffer (frames consumed and produced, the new last_index / ratio / needed size / fill, hence all getters) are a function of the control state and the argument lengths only, computed by generated functions that never mention T; so f32 and f64 instances make identical decisions on the same history. FFT types carry integer control only. The numerical half (f32 output within 48 * 2^-23 * peak of the f64 output; measured maximum 10.5) is a predicate on twin histories, not a theorem.",
+ "C17": ("Coq theorems generic in the sample type: for the four asynchronous types the control results of process_into_buffer (frames consumed and produced, the new last_index / ratio / needed size / fill, hence all getters) are a function of the control state and the argument lengths only, computed by generated functions that never mention T; so f32 and f64 instances make identical decisions on the same history. FFT types carry integer control only. The numerical half (f32 output within 32 * 2^-23 * peak of the f64 output; measured maximum 10 after the make_sincs fix e52b386, 250 before) is a predicate on twin histories, not a theorem.",
          TB + "Numerical closeness measured against a fixed tolerance. Axiom-free.",
          "machine-checked proof in Coq (parametricity of the control path in the sample type) + f32/f64 twin-history comparison, both twins bit-exact against the model", "DESIGN.md 7 C17"),
  "C18": ("Coq theorems: in the model of a process with any number of instances (a list of states and a schedule of (instance, call) pairs — any interleaving, any migration at call boundaries), what instance i sees and returns equals what it sees and returns when run alone on the projection of the schedule; this model is faithful because the list of items with static / thread-local / interior-mutable / lock / atomic storage or unsafe Send/Sync impls in /repo/src, regenerated on every run, is exactly the two immutable CPU-feature tables. Executed: the same history alone, on 2..16 concurrent threads (odd ones migrating the resampler to a new thread for every call, half of them building other resamplers first), and after other resamplers were built on the same thread: all traces bit-identical.",
